@@ -63,7 +63,23 @@ EndOk(o) == Ends(o) # <<>> /\ Ends(o)[1].d.ok
 EndD(o) == Ends(o)[1].d
 Cancelled(o) == Evs(o, "Cancel") # <<>>
 Crashed(o) == Evs(o, "Crash") # <<>>
-Req(o) == o.b.req
+IsClient(o) == o.b.api = "client"
+\* The WebAuthn mapping the properties name: presence always required, verification unless discouraged,
+\* resident key from residentKey / requireResidentKey / authenticator capability.
+ExpRk(o) ==
+    LET r == o.b.req IN
+    IF o.b.op # "mc" \/ ~r.authSel THEN FALSE
+    ELSE CASE r.residentKey = "required"    -> TRUE
+           [] r.residentKey = "preferred"   -> o.cfg.disc # "nondisc"
+           [] r.residentKey = "discouraged" -> FALSE
+           [] OTHER                         -> r.requireRk
+ExpUv(o) == IF o.b.op = "mc" /\ ~o.b.req.authSel THEN TRUE ELSE o.b.req.uvreq # "discouraged"
+Req(o) == IF IsClient(o)
+          THEN [o.b.req EXCEPT !.up = TRUE, !.uv = ExpUv(o), !.rk = ExpRk(o),
+                               !.algs = IF o.b.op = "mc" /\ o.b.req.algs = <<>> THEN <<"ES256", "RS256">> ELSE o.b.req.algs]
+          ELSE o.b.req
+ErrIs(o, code) == EndD(o).err = code \/ (code = 46 /\ EndD(o).werr = "CredentialNotFound")
+Lower(o) == o.b.api \in {"ctap2", "trait", "client"}
 IsMc(o) == o.b.op = "mc"
 IsGa(o) == o.b.op = "ga"
 NoFaults(o) == \A i \in 1..Len(o.b.env.faults) : o.b.env.faults[i] = 0
@@ -111,7 +127,7 @@ ConsentMissing(o) ==
     \/ \E j \in 1..Len(o.evs) : o.evs[j].ev = "Prompt" /\ ~Satisfied(o, o.evs[j])
 
 C04_NoConsentNoEffect(o) ==
-    (Finished(o) /\ o.b.api \in {"ctap2", "trait"} /\ ConsentMissing(o) /\ ~Crashed(o)) =>
+    (Finished(o) /\ Lower(o) /\ ConsentMissing(o) /\ ~Crashed(o)) =>
         /\ ~EndOk(o)
         /\ Unchanged(o)
 
@@ -121,7 +137,7 @@ C04_ShownIsSigner(o) ==
 
 \* nothing about the existence of a credential is disclosed before consent
 C04_NoDisclosureBeforeConsent(o) ==
-    (Ends(o) # <<>> /\ ~EndOk(o) /\ EndD(o).err \in {25, 46} /\ o.b.api \in {"ctap2", "trait"}) => ConsentGiven(o)
+    (Ends(o) # <<>> /\ ~EndOk(o) /\ (ErrIs(o, 25) \/ ErrIs(o, 46)) /\ Lower(o)) => ConsentGiven(o)
 
 \* non-interference: while consent is missing the outcome does not depend on whether a matching credential
 \* exists.  Judged on consecutive runs that differ only in the store content.
@@ -132,7 +148,7 @@ C04_NonInterference(o) ==
     (Finished(o) /\ SameButStore(o) /\ ConsentMissing(o) /\ ~Cancelled(o) /\ ~Crashed(o)) =>
         LET pe == SelectSeq(o.prevRun.evs, LAMBDA e : e.ev = "End")
         IN /\ pe # <<>> /\ Ends(o) # <<>>
-           /\ pe[1].d.ok = EndD(o).ok /\ pe[1].d.err = EndD(o).err
+           /\ pe[1].d.ok = EndD(o).ok /\ pe[1].d.err = EndD(o).err /\ pe[1].d.werr = EndD(o).werr
 
 -----------------------------------------------------------------------------
 (* C05 - own RP, allow / exclude lists                                      *)
@@ -216,7 +232,7 @@ C07_AssertionCounterAccepted(o) ==
                                  /\ o.evs[i].d.cred.id = EndD(o).cred /\ o.evs[i].d.cred.ctr = EndD(o).ctr
 
 C07_StoreErrorReported(o) ==
-    (Ends(o) # <<>> /\ o.b.api \in {"ctap2", "trait"}) =>
+    (Ends(o) # <<>> /\ Lower(o)) =>
         \A i \in 1..Len(o.evs) :
             (o.evs[i].ev = "Store" /\ o.evs[i].d.call \in {"save", "update"} /\ ~o.evs[i].d.ok) =>
                 ~EndOk(o) /\ EndD(o).err = o.evs[i].d.err
@@ -294,8 +310,9 @@ Eligible(o) == { i \in 1..Len(o.snap0) : /\ o.snap0[i].rp = Req(o).rp
                                         /\ (NonEmptyAllow(o) => o.snap0[i].id \in ToSetA(Req(o).allow)) }
 
 C03_NoEligibleCredential(o) ==
-    (IsGa(o) /\ Ends(o) # <<>> /\ ConsentGiven(o) /\ Eligible(o) = {} /\ NoFaults(o) /\ o.b.api \in {"ctap2", "trait"}) =>
-        ~EndOk(o) /\ EndD(o).err = 46
+    (IsGa(o) /\ Ends(o) # <<>> /\ ConsentGiven(o) /\ Eligible(o) = {} /\ NoFaults(o) /\ Lower(o)
+        /\ (IsClient(o) => o.b.req.dom = "ok" /\ EndD(o).werr \notin {"NotSupportedError", "SyntaxError", "ValidationError"})) =>
+        ~EndOk(o) /\ ErrIs(o, 46)
 
 -----------------------------------------------------------------------------
 (* C09 - PRF (authenticator level: salts arrive already formed)             *)
@@ -304,11 +321,12 @@ PrfOuts(d) == SelectSeq(<<d.prf1, d.prf2>>, LAMBDA p : p.sec # "absent")
 LastVerif(o) == Prompts(o) # <<>> /\ Prompts(o)[Len(Prompts(o))].d.verif
 
 ExpectedSaltPrefix(o, cid) ==
-    IF IsGa(o) /\ Req(o).prf.byCredGiven /\ \E i \in 1..Len(Req(o).prf.byCred) : Req(o).prf.byCred[i].id = cid
-    THEN cid \o "." ELSE "e"
+    (IF IsClient(o) /\ o.b.req.cprf.kind = "hashed" THEN "raw:" ELSE "") \o
+    (IF IsGa(o) /\ Req(o).prf.byCredGiven /\ \E i \in 1..Len(Req(o).prf.byCred) : Req(o).prf.byCred[i].id = cid
+     THEN cid \o "." ELSE "e")
 
 C09_Results(o) ==
-    (EndOk(o) /\ o.b.api \in {"ctap2", "trait"}) =>
+    (EndOk(o) /\ Lower(o)) =>
         LET d == EndD(o)
             outs == PrfOuts(d)
             cid == d.cred
@@ -323,6 +341,64 @@ C09_Results(o) ==
            /\ (IsMc(o) => /\ (d.prfEnabled = "true") = (d.stored.hm # "none" /\ d.prfEnabled # "absent")
                           /\ (o.cfg.hmac = "off" => d.stored.hm = "none")
                           /\ (outs # <<>> => d.prfEnabled = "true"))
+
+-----------------------------------------------------------------------------
+(* client level: C01 end to end, C02/C03 client data, C04/C11 mappings, C09 validation *)
+
+DomainErrors == {"OriginMissingDomain", "OriginRpMissmatch", "UnprotectedOrigin", "InsecureLocalhostNotAllowed", "InvalidRpId"}
+Touches(e) == e.ev = "Prompt" \/ (e.ev = "Store" /\ e.d.call \in {"find", "save", "update"})
+
+C01_RejectedNeverReaches(o) ==
+    (IsClient(o) /\ Ends(o) # <<>> /\ EndD(o).werr \in DomainErrors) => \A i \in 1..Len(o.evs) : ~Touches(o.evs[i])
+
+C01_EffectiveRpUsed(o) ==
+    IsClient(o) =>
+        /\ \A i \in 1..Len(o.evs) :
+              (o.evs[i].ev = "Store" /\ o.evs[i].d.call \in {"find", "save", "update"}) => o.evs[i].d.rp = o.b.req.rp
+        /\ (EndOk(o) => EndD(o).rphash = o.b.req.rp)
+
+C02_ClientData(o) ==
+    (IsClient(o) /\ IsMc(o) /\ EndOk(o)) =>
+        LET c == EndD(o).client IN
+        /\ c.present /\ c.cdType = "webauthn.create" /\ c.chalOk /\ c.originOk /\ ~c.crossOrigin /\ c.orderOk
+        /\ c.copiesEqual /\ c.attFmt = "none"
+        /\ c.idOk /\ c.rawIdOk /\ c.coseEqDer /\ c.algReported = EndD(o).cose.alg
+
+C03_ClientData(o) ==
+    (IsClient(o) /\ IsGa(o) /\ EndOk(o)) =>
+        LET c == EndD(o).client IN
+        /\ c.present /\ c.cdType = "webauthn.get" /\ c.chalOk /\ c.originOk /\ ~c.crossOrigin /\ c.orderOk
+        /\ c.idOk /\ c.copiesEqual
+
+C04_ClientMapping(o) ==
+    IsClient(o) => \A i \in 1..Len(o.evs) : o.evs[i].ev = "Prompt" => o.evs[i].d.up /\ o.evs[i].d.uv = ExpUv(o)
+
+C11_RkMapping(o) ==
+    (IsClient(o) /\ IsMc(o)) =>
+        /\ \A i \in 1..Len(o.evs) : (o.evs[i].ev = "Store" /\ o.evs[i].d.call = "save") => o.evs[i].d.opts.rk = ExpRk(o)
+        /\ (EndOk(o) => ~(o.cfg.disc = "nondisc" /\ ExpRk(o)))
+
+C11_CredProps(o) ==
+    (IsClient(o) /\ IsMc(o) /\ EndOk(o)) =>
+        EndD(o).client.credProps = (IF o.b.req.credProps = "true"
+                                    THEN (IF EndD(o).stored.user # "none" THEN "true" ELSE "false") ELSE "absent")
+
+\* malformed PRF requests as the property lists them
+Malformed(o) ==
+    LET c == o.b.req.cprf
+        badKey == \E i \in 1..Len(c.byCred) : c.byCred[i].id \in {"k:empty", "k:bad64"}
+        unlisted == o.b.req.allowGiven /\ \E i \in 1..Len(c.byCred) :
+                        \A j \in 1..Len(o.b.req.allow) : o.b.req.allow[j] # c.byCred[i].id
+    IN /\ c.kind \in {"prf", "hashed"}
+       /\ \/ IsMc(o) /\ c.byCredGiven
+          \/ IsGa(o) /\ c.byCredGiven /\ c.byCred # <<>> /\ (~o.b.req.allowGiven \/ o.b.req.allow = <<>>)
+          \/ IsGa(o) /\ c.byCredGiven /\ (badKey \/ unlisted)
+          \/ c.kind = "hashed" /\ c.badlen /\ (c.eval # "absent" \/ (IsGa(o) /\ c.byCredGiven /\ c.byCred # <<>>))
+
+C09_MalformedRejectedEarly(o) ==
+    (IsClient(o) /\ Ends(o) # <<>> /\ o.cfg.hmac # "off" /\ o.b.req.dom = "ok" /\ Malformed(o)) =>
+        /\ ~EndOk(o)
+        /\ \A i \in 1..Len(o.evs) : ~Touches(o.evs[i])
 
 -----------------------------------------------------------------------------
 \* the names of the invariants that are false in o
@@ -357,4 +433,12 @@ Violated(o) ==
     \cup (IF ~C03_Assertion(o) THEN {"C03.Assertion"} ELSE {})
     \cup (IF ~C03_NoEligibleCredential(o) THEN {"C03.NoEligibleCredential"} ELSE {})
     \cup (IF ~C09_Results(o) THEN {"C09.Results"} ELSE {})
+    \cup (IF ~C01_RejectedNeverReaches(o) THEN {"C01.RejectedNeverReaches"} ELSE {})
+    \cup (IF ~C01_EffectiveRpUsed(o) THEN {"C01.EffectiveRpUsed"} ELSE {})
+    \cup (IF ~C02_ClientData(o) THEN {"C02.ClientData"} ELSE {})
+    \cup (IF ~C03_ClientData(o) THEN {"C03.ClientData"} ELSE {})
+    \cup (IF ~C04_ClientMapping(o) THEN {"C04.ClientMapping"} ELSE {})
+    \cup (IF ~C11_RkMapping(o) THEN {"C11.RkMapping"} ELSE {})
+    \cup (IF ~C11_CredProps(o) THEN {"C11.CredProps"} ELSE {})
+    \cup (IF ~C09_MalformedRejectedEarly(o) THEN {"C09.MalformedRejectedEarly"} ELSE {})
 =============================================================================
